@@ -48,6 +48,48 @@ def _check_text(name, data, res):
     return text
 
 
+def _tm_flatten(rep, rule, top, depth=0):
+    """TextMate: the ordered list [scope, pattern] a tokenizer tries inside `rule` (its end pattern first, then its child
+    patterns with includes expanded in place; a begin/end child contributes its begin pattern)."""
+    out = []
+    if depth > 6:
+        return out
+    if top and 'end' in rule:
+        out.append(['END', rule['end']])
+    for ch in rule.get('patterns', []):
+        if 'include' in ch:
+            tgt = rep.get(ch['include'].lstrip('#'))
+            if tgt is None:
+                continue
+            if 'match' in tgt:
+                out.append([tgt.get('name', 'unnamed'), tgt['match']])
+            elif 'begin' in tgt:
+                out.append(['BEGIN:' + ch['include'].lstrip('#'), tgt['begin']])
+            else:
+                out += _tm_flatten(rep, tgt, False, depth + 1)
+        elif 'match' in ch:
+            out.append([ch.get('name', 'unnamed'), ch['match']])
+        elif 'begin' in ch:
+            out.append(['BEGIN:' + ch.get('name', '?'), ch['begin']])
+    return out
+
+
+def _sub_flatten(contexts, rules, depth=0):
+    """Sublime: the ordered list [scope, pattern] tried inside a pushed context (includes expanded in place)."""
+    out = []
+    if depth > 6:
+        return out
+    for r in rules:
+        if 'include' in r:
+            out += _sub_flatten(contexts, contexts.get(r['include'], []), depth + 1)
+        elif 'match' in r:
+            sc = r.get('scope') or ('POP' if r.get('pop') else 'PUSH' if 'push' in r else 'unnamed')
+            if r.get('pop') and not r.get('scope'):
+                sc = 'POP'
+            out.append([sc, r['match']])
+    return out
+
+
 @register('inspect_extension')
 def inspect_extension(d, spec, out):
     root = os.path.join(d, spec.get('ext_dir', 'out'))
@@ -85,6 +127,10 @@ def inspect_extension(d, spec, out):
                                 if p.get('name') == 'keyword.control.preprocessor':
                                     res['patterns']['preprocessor'] = p['match']
                     res['scopeName'] = g.get('scopeName')
+                    res['contexts'] = {'operand': _tm_flatten(rep, rep['instructions'], True),
+                                       'bracket': _tm_flatten(rep, rep['indirect-addressing'], True)}
+                    if 'macros' in rep:
+                        res['contexts']['macro-operand'] = _tm_flatten(rep, rep['macros'], True)
                 except Exception as e:
                     res['grammar_error'] = repr(e)
             if rel.endswith('package.json') and text is not None:
@@ -132,6 +178,14 @@ def inspect_extension(d, spec, out):
                                     if 'match' in rule and '(?<=\\#)' in rule['match']:
                                         res['patterns']['preprocessor'] = rule['match']
                             res['file_extensions'] = s.get('file_extensions')
+                            res['contexts'] = {}
+                            for it in c['instructions']:
+                                key = {'variable.function.instruction': 'operand', 'variable.function.macro': 'macro-operand'}.get(it.get('scope'))
+                                if key and isinstance(it.get('push'), list):
+                                    res['contexts'][key] = _sub_flatten(c, it['push'])
+                            for it in c.get('indirect_addressing', []):
+                                if isinstance(it.get('push'), list):
+                                    res['contexts']['bracket'] = _sub_flatten(c, it['push'])
                         except Exception as e:
                             res['grammar_error'] = repr(e)
             except Exception as e:
